@@ -743,6 +743,97 @@ pub proof fn lemma_bdiff_pointwise(a: BoundSet, b: BoundSet, r: Option<Vec<Bound
     }
 }
 
+// ===================== A8: std contract for `slice.iter().filter(p).max()` / `.min()` (Skolemised) =====================
+pub uninterp spec fn answers<F>(s: Seq<Version>, f: F) -> Seq<bool>;
+/// r is the last maximal element (by the lawful order `ver_cmp`) among the selected ones; None iff none is selected
+pub open spec fn is_filter_max(s: Seq<Version>, bs: Seq<bool>, r: Option<&Version>) -> bool {
+    &&& bs.len() == s.len()
+    &&& (r matches Some(m) ==> exists|k: int| 0 <= k < s.len() && *m == #[trigger] s[k] && bs[k]
+            && (forall|j: int| 0 <= j < s.len() && bs[j] ==> ver_cmp(#[trigger] s[j], *m) != Ordering::Greater))
+    &&& (r is None ==> forall|j: int| #![trigger s[j]] 0 <= j < s.len() ==> !bs[j])
+}
+pub open spec fn is_filter_min(s: Seq<Version>, bs: Seq<bool>, r: Option<&Version>) -> bool {
+    &&& bs.len() == s.len()
+    &&& (r matches Some(m) ==> exists|k: int| 0 <= k < s.len() && *m == #[trigger] s[k] && bs[k]
+            && (forall|j: int| 0 <= j < s.len() && bs[j] ==> ver_cmp(#[trigger] s[j], *m) != Ordering::Less))
+    &&& (r is None ==> forall|j: int| #![trigger s[j]] 0 <= j < s.len() ==> !bs[j])
+}
+#[verifier::external_body]
+fn verif_std_filter_max<'v, F: Fn(&&'v Version) -> bool>(versions: &'v [Version], f: F) -> (r: Option<&'v Version>)
+    requires forall|i: int| 0 <= i < versions@.len() ==> call_requires(f, (&&versions@[i],)),
+    ensures is_filter_max(versions@, answers(versions@, f), r),
+            forall|j: int| 0 <= j < versions@.len() ==> call_ensures(f, (&&#[trigger] versions@[j],), answers(versions@, f)[j]),
+{ versions.iter().filter(f).max() }
+#[verifier::external_body]
+fn verif_std_filter_min<'v, F: Fn(&&'v Version) -> bool>(versions: &'v [Version], f: F) -> (r: Option<&'v Version>)
+    requires forall|i: int| 0 <= i < versions@.len() ==> call_requires(f, (&&versions@[i],)),
+    ensures is_filter_min(versions@, answers(versions@, f), r),
+            forall|j: int| 0 <= j < versions@.len() ==> call_ensures(f, (&&#[trigger] versions@[j],), answers(versions@, f)[j]),
+{ versions.iter().filter(f).min() }
+
+// ===================== proof side: a comparator list is the fold of `intersect` (C02) =====================
+/// postcondition of BoundSet::intersect as a relation
+pub open spec fn binter_post(a: BoundSet, b: BoundSet, r: Option<BoundSet>) -> bool {
+    &&& (r is Some) <==> boverlap(a, b)
+    &&& r matches Some(x) ==> bs_wf(x)
+            && *x.lower == (if bound_cmp(*a.lower, *b.lower) == Ordering::Greater { *a.lower } else { *b.lower })
+            && *x.upper == (if bound_cmp(*a.upper, *b.upper) == Ordering::Greater { *b.upper } else { *a.upper })
+            && forall|v: VKey| #![trigger within(x, v)] (within(x, v) <==> (within(a, v) && within(b, v)))
+}
+/// A9': `rest.try_fold(first, |acc, bs| acc.intersect(&bs))` — left fold that stops at the first `None`
+pub open spec fn folded(first: BoundSet, rest: Seq<BoundSet>, r: Option<BoundSet>) -> bool
+    decreases rest.len()
+{
+    if rest.len() == 0 { r == Some(first) }
+    else { exists|mid: Option<BoundSet>| #[trigger] binter_post(first, rest[0], mid) && match mid { Some(m) => folded(m, rest.drop_first(), r), None => r is None } }
+}
+pub open spec fn flat(css: Seq<Seq<KCmp>>) -> Seq<KCmp> decreases css.len()
+{ if css.len() == 0 { Seq::empty() } else { css[0] + flat(css.drop_first()) } }
+
+pub proof fn lemma_set_ok_empty_right(a: Seq<KCmp>, b: Seq<KCmp>, v: VKey)
+    requires !set_ok(a, v) ensures !set_ok(a + b, v)
+{ lemma_set_ok_concat(a, b, v); }
+
+pub proof fn lemma_fold_is_intersection(first: BoundSet, c0: Seq<KCmp>, rest: Seq<BoundSet>, css: Seq<Seq<KCmp>>, r: Option<BoundSet>)
+    requires bs_wf(first), repr(first, c0), css.len() == rest.len(), folded(first, rest, r),
+        forall|i: int| 0 <= i < rest.len() ==> bs_wf(#[trigger] rest[i]) && repr(rest[i], css[i]),
+    ensures
+        r matches Some(b) ==> bs_wf(b) && repr(b, c0 + flat(css)),
+        r is None ==> forall|v: VKey| wfk(v) ==> !#[trigger] set_ok(c0 + flat(css), v),
+    decreases rest.len()
+{
+    if rest.len() == 0 {
+        assert(flat(css) =~= Seq::<KCmp>::empty());
+        assert(c0 + flat(css) =~= c0);
+    } else {
+        let mid = choose|mid: Option<BoundSet>| #[trigger] binter_post(first, rest[0], mid) && match mid { Some(m) => folded(m, rest.drop_first(), r), None => r is None };
+        let tail = css.drop_first();
+        assert(flat(css) =~= css[0] + flat(tail));
+        assert(c0 + flat(css) =~= (c0 + css[0]) + flat(tail));
+        assert(repr(rest[0], css[0]));
+        match mid {
+            Some(m) => {
+                lemma_repr_intersect(first, c0, rest[0], css[0], m);
+                assert forall|i: int| 0 <= i < rest.drop_first().len() implies bs_wf(#[trigger] rest.drop_first()[i]) && repr(rest.drop_first()[i], tail[i]) by {
+                    assert(rest.drop_first()[i] == rest[i + 1]); assert(tail[i] == css[i + 1]);
+                }
+                lemma_fold_is_intersection(m, c0 + css[0], rest.drop_first(), tail, r);
+            },
+            None => {
+                lemma_repr_empty_intersect(first, c0, rest[0], css[0]);
+                assert forall|v: VKey| wfk(v) implies !#[trigger] set_ok(c0 + flat(css), v) by {
+                    assert(!set_ok(c0 + css[0], v));
+                    lemma_set_ok_empty_right(c0 + css[0], flat(tail), v);
+                }
+            },
+        }
+    }
+}
+/// order of comparators does not matter: the represented set is a conjunction
+pub proof fn lemma_conj_commutes(a: Seq<KCmp>, b: Seq<KCmp>, v: VKey)
+    ensures npm_sat(a + b, v) == npm_sat(b + a, v)
+{ lemma_set_ok_concat(a, b, v); lemma_set_ok_concat(b, a, v); lemma_set_gate_concat(a, b, v); lemma_set_gate_concat(b, a, v); }
+
 #[derive(Debug)]
 pub struct Partial {
     pub major: Option<u64>,
@@ -989,6 +1080,102 @@ pub proof fn lemma_repr_from_shape(bs: BoundSet, cs: Seq<KCmp>)
         else if cs.len() == 1 { assert(cs =~= s1(cs[0])); lemma_set1(cs[0], v); }
         else { assert(cs =~= s2(cs[0], cs[1])); lemma_set2(cs[0], cs[1], v); }
     }
+}
+
+// ===================== proof side: successors in the version order (for min_version) =====================
+pub proof fn lemma_least_pre0(s: Seq<Identifier>)
+    requires s.len() > 0
+    ensures pre_cmp(pre0(), s) != Ordering::Greater
+{
+    reveal_with_fuel(pre_cmp, 3);
+    assert(pre0().drop_first().len() == 0);
+}
+/// appending `.0` gives the immediate successor of a prerelease tag
+pub proof fn lemma_push0(p: Seq<Identifier>, q: Seq<Identifier>)
+    requires pre_cmp(p, q) == Ordering::Less
+    ensures pre_cmp(p.push(Identifier::Numeric(0)), q) != Ordering::Greater
+    decreases p.len()
+{
+    let p0 = p.push(Identifier::Numeric(0));
+    if p.len() == 0 {
+        assert(p0 =~= pre0());
+        lemma_least_pre0(q);
+    } else {
+        assert(p0[0] == p[0]);
+        assert(p0.drop_first() =~= p.drop_first().push(Identifier::Numeric(0)));
+        if q.len() > 0 && ident_cmp(p[0], q[0]) == Ordering::Equal {
+            lemma_push0(p.drop_first(), q.drop_first());
+        }
+    }
+}
+pub proof fn lemma_push0_greater(p: Seq<Identifier>)
+    ensures pre_cmp(p, p.push(Identifier::Numeric(0))) == Ordering::Less
+    decreases p.len()
+{
+    let p0 = p.push(Identifier::Numeric(0));
+    if p.len() > 0 {
+        assert(p0[0] == p[0]);
+        assert(p0.drop_first() =~= p.drop_first().push(Identifier::Numeric(0)));
+        lemma_ident_refl(p[0]);
+        lemma_push0_greater(p.drop_first());
+    }
+}
+pub open spec fn wfk0(v: VKey) -> bool { 0 <= v.major && 0 <= v.minor && 0 <= v.patch }
+/// successor of a prerelease key
+pub proof fn lemma_succ_pre(a: VKey, w: VKey)
+    requires a.pre.len() > 0, kcmp(a, w) == Ordering::Less
+    ensures kcmp(VKey { pre: a.pre.push(Identifier::Numeric(0)), ..a }, w) != Ordering::Greater,
+            kcmp(a, VKey { pre: a.pre.push(Identifier::Numeric(0)), ..a }) == Ordering::Less
+{
+    lemma_push0_greater(a.pre);
+    if a.major == w.major && a.minor == w.minor && a.patch == w.patch && w.pre.len() > 0 { lemma_push0(a.pre, w.pre); }
+}
+/// successor of a release key is the `-0` prerelease of the next patch
+pub proof fn lemma_succ_release(a: VKey, w: VKey)
+    requires a.pre.len() == 0, kcmp(a, w) == Ordering::Less
+    ensures kcmp(VKey { major: a.major, minor: a.minor, patch: a.patch + 1, pre: pre0() }, w) != Ordering::Greater
+{
+    if w.major == a.major && w.minor == a.minor && w.patch == a.patch + 1 && w.pre.len() > 0 { lemma_least_pre0(w.pre); }
+}
+pub proof fn lemma_least_key(w: VKey)
+    requires wfk0(w)
+    ensures kcmp(VKey { major: 0, minor: 0, patch: 0, pre: pre0() }, w) != Ordering::Greater
+{
+    if w.major == 0 && w.minor == 0 && w.patch == 0 && w.pre.len() > 0 { lemma_least_pre0(w.pre); }
+}
+
+pub proof fn lemma_below_down(u: Cut, a: VKey, k: VKey)
+    requires kcmp(a, k) != Ordering::Greater, below(u, k)
+    ensures below(u, a)
+{ broadcast use group_k_order; }
+pub proof fn lemma_above_up(l: Cut, a: VKey, k: VKey)
+    requires kcmp(a, k) != Ordering::Greater, above(l, a)
+    ensures above(l, k)
+{ broadcast use group_k_order; }
+/// postcondition of min_version on one interval
+pub open spec fn minv_post(bs: BoundSet, r: Option<Version>) -> bool {
+    match r {
+        Some(m) => sat(bs, key(m)) && forall|k: VKey| #![trigger sat(bs, k)] wfk0(k) && sat(bs, k) ==> kcmp(key(m), k) != Ordering::Greater,
+        None => forall|k: VKey| #![trigger sat(bs, k)] wfk0(k) ==> !sat(bs, k),
+    }
+}
+pub open spec fn lower_excl(b: Bound) -> bool { b matches Bound::Lower(Predicate::Excluding(_)) }
+
+
+use vstd::std_specs::convert::*;
+impl FromSpecImpl<(i32, i32, i32)> for Version { open spec fn obeys_from_spec() -> bool { false } open spec fn from_spec(v: (i32, i32, i32)) -> Self { arbitrary() } }
+impl FromSpecImpl<(i32, i32, i32, i32)> for Version { open spec fn obeys_from_spec() -> bool { false } open spec fn from_spec(v: (i32, i32, i32, i32)) -> Self { arbitrary() } }
+impl ::std::convert::From<(i32, i32, i32)> for Version {
+    #[verifier::external_body]
+    fn from(arg: (i32, i32, i32)) -> (r: Self)
+        ensures arg.0 >= 0 && arg.1 >= 0 && arg.2 >= 0 ==> key(r) == k3(arg.0 as int, arg.1 as int, arg.2 as int) && r.build@.len() == 0
+    { unimplemented!() }
+}
+impl ::std::convert::From<(i32, i32, i32, i32)> for Version {
+    #[verifier::external_body]
+    fn from(arg: (i32, i32, i32, i32)) -> (r: Self)
+        ensures arg.0 >= 0 && arg.1 >= 0 && arg.2 >= 0 && arg.3 >= 0 ==> key(r) == k4(arg.0 as int, arg.1 as int, arg.2 as int, seq![Identifier::Numeric(arg.3 as u64)]) && r.build@.len() == 0
+    { unimplemented!() }
 }
 
 impl Predicate {
@@ -1305,6 +1492,57 @@ proof { lemma_cut4(cut_of(*self.lower), cut_of(*self.upper), cut_of(*other.lower
             Some(vec![self.clone()])
         }
     }
+
+    fn min_version(&self) -> (r: Option<Version>)
+    requires bs_wf(*self), bound_version(*self.lower) matches Some(w) ==> w.patch < 0xffff_ffff_ffff_ffff,
+    ensures minv_post(*self, r),
+{
+broadcast use group_k_order;
+
+        // The versions that could be the minimum, lowest first.
+        let (first, second) = match self.lower.as_ref() {
+            Bound::Lower(Predicate::Including(v)) => (v.clone(), None),
+            Bound::Lower(Predicate::Excluding(v)) => {
+                let mut next = v.clone();
+                if next.is_prerelease() {
+                    next.pre_release.push(Identifier::Numeric(0));
+                    (next, None)
+                } else {
+                    next.patch += 1;
+                    let mut pre = next.clone();
+                    pre.pre_release.push(Identifier::Numeric(0));
+                    (pre, Some(next))
+                }
+            }
+            Bound::Lower(Predicate::Unbounded) => {
+                (Version::from((0, 0, 0, 0)), Some(Version::from((0, 0, 0))))
+            }
+            Bound::Upper(_) => return None,
+        };
+proof {
+            let ll = cut_of(*self.lower); let uu = cut_of(*self.upper);
+            let f = key(first);
+            reveal(cut_cmp);
+            assert forall|s: Seq<Identifier>| #![trigger s.len()] s.len() == 1 && s[0] == Identifier::Numeric(0) implies s == pre0() by { assert(s =~= pre0()); }
+            assert forall|k: VKey| #![trigger above(ll, k)] wfk0(k) && above(ll, k) implies kcmp(f, k) != Ordering::Greater by {
+                if lower_excl(*self.lower) { let kv = key(bound_version(*self.lower)->0); if kv.pre.len() > 0 { lemma_succ_pre(kv, k); } else { lemma_succ_release(kv, k); } }
+                if *self.lower == Bound::Lower(Predicate::Unbounded) { lemma_least_key(k); }
+            }
+            if lower_excl(*self.lower) && key(bound_version(*self.lower)->0).pre.len() > 0 { lemma_push0_greater(key(bound_version(*self.lower)->0).pre); }
+            assert(above(ll, f));
+            assert forall|a: VKey, k: VKey| #![trigger kcmp(a, k), below(uu, k)] kcmp(a, k) != Ordering::Greater && below(uu, k) implies below(uu, a) by { lemma_below_down(uu, a, k); }
+        }
+
+
+        if self.satisfies(&first) {
+            return Some(first);
+        }
+
+        match second {
+            Some(v) if self.satisfies(&v) => Some(v),
+            _ => None,
+        }
+    }
 }
 impl Range {
     pub fn any() -> (r: Self)
@@ -1490,6 +1728,78 @@ proof {
         } else {
             Some(Self(predicates))
         }
+    }
+
+    pub fn min_version(&self) -> (r: Option<Version>)
+    requires rwf(*self), forall|i: int| 0 <= i < self.0@.len() ==> (bound_version(*(#[trigger] self.0@[i]).lower) matches Some(w) ==> w.patch < 0xffff_ffff_ffff_ffff),
+    ensures match r {
+        Some(m) => rsat(*self, key(m)) && forall|k: VKey| #![trigger rsat(*self, k)] wfk0(k) && rsat(*self, k) ==> kcmp(key(m), k) != Ordering::Greater,
+        None => forall|k: VKey| #![trigger rsat(*self, k)] wfk0(k) ==> !rsat(*self, k),
+    },
+{
+broadcast use g_any, group_k_order;
+
+        let mut min: Option<Version> = None;
+
+        for range in it0: &self.0
+    invariant rwf(*self), forall|i: int| 0 <= i < self.0@.len() ==> (bound_version(*(#[trigger] self.0@[i]).lower) matches Some(w) ==> w.patch < 0xffff_ffff_ffff_ffff), match min {
+            Some(m) => any_sat(self.0@, it0.index@ as int, key(m)) && forall|k: VKey| #![trigger any_sat(self.0@, it0.index@ as int, k)] wfk0(k) && any_sat(self.0@, it0.index@ as int, k) ==> kcmp(key(m), k) != Ordering::Greater,
+            None => forall|k: VKey| #![trigger any_sat(self.0@, it0.index@ as int, k)] wfk0(k) ==> !any_sat(self.0@, it0.index@ as int, k),
+        },
+{
+let ghost old_min = min; let ghost mut cand: Option<Version> = None;
+
+            if let Some(candidate) = range.min_version() {
+proof { cand = Some(candidate); }
+
+                let lower = match &min {
+                    Some(current) => candidate < *current,
+                    None => true,
+                };
+                if lower {
+                    min = Some(candidate);
+                }
+            }
+        
+proof {
+            let n = it0.index@ as int;
+            assert(*range == self.0@[n]);
+            assert(minv_post(*range, cand));
+            assert forall|k: VKey| #![trigger any_sat(self.0@, n + 1, k)] any_sat(self.0@, n + 1, k) == (any_sat(self.0@, n, k) || sat(self.0@[n], k)) by { lemma_any_sat_step(self.0@, n, k); }
+            let new_min = min;
+            match new_min {
+                Some(m) => {
+                    lemma_any_sat_step(self.0@, n, key(m));
+                    assert forall|k: VKey| #![trigger any_sat(self.0@, n + 1, k)] wfk0(k) && any_sat(self.0@, n + 1, k) implies kcmp(key(m), k) != Ordering::Greater by {
+                        lemma_any_sat_step(self.0@, n, k);
+                        if let Some(c) = cand { lemma_k_flip(key(c), key(m)); if sat(self.0@[n], k) { lemma_k_trans(key(m), key(c), k); } }
+                        if let Some(o) = old_min { lemma_k_flip(key(m), key(o)); if any_sat(self.0@, n, k) { lemma_k_trans(key(m), key(o), k); } }
+                    }
+                },
+                None => {},
+            }
+        }
+}
+
+        min
+    }
+
+    pub fn max_satisfying<'v>(&self, versions: &'v [Version]) -> (r: Option<&'v Version>)
+    requires rwf(*self),
+    ensures r matches Some(m) ==> rsat(*self, key(*m)) && (exists|k: int| 0 <= k < versions@.len() && *m == #[trigger] versions@[k])
+                && forall|j: int| 0 <= j < versions@.len() && rsat(*self, key(#[trigger] versions@[j])) ==> ver_cmp(versions@[j], *m) != Ordering::Greater,
+            r is None ==> forall|j: int| 0 <= j < versions@.len() ==> !rsat(*self, key(#[trigger] versions@[j])),
+{
+        verif_std_filter_max(versions, |v: &&Version| -> (b: bool) requires rwf(*self) ensures b == rsat(*self, key(**v)) { self.satisfies(v) })
+    }
+
+    pub fn min_satisfying<'v>(&self, versions: &'v [Version]) -> (r: Option<&'v Version>)
+    requires rwf(*self),
+    ensures r matches Some(m) ==> rsat(*self, key(*m)) && (exists|k: int| 0 <= k < versions@.len() && *m == #[trigger] versions@[k])
+                && forall|j: int| 0 <= j < versions@.len() && rsat(*self, key(#[trigger] versions@[j])) ==> ver_cmp(versions@[j], *m) != Ordering::Less,
+            r is None ==> forall|j: int| 0 <= j < versions@.len() ==> !rsat(*self, key(#[trigger] versions@[j])),
+{
+        verif_std_filter_min(versions, |v: &&Version| -> (b: bool) requires rwf(*self) ensures b == rsat(*self, key(**v)) { self.satisfies(v) })
     }
 }
 
